@@ -84,6 +84,16 @@ CHECKS.update({
    text='For every spanning-tree structure with 1..2 (quick) / 1..3 (thorough) quotes and every operation sequence of length <=2 (<=3): after construction and after each step every cross rate equals the path product of the LATEST quotes, its sensitivity to quote k is reported under fx_<pair> (a dual-valued quote keeps its own variable) and equals +-cross/q_k on the path and 0 off it, second order s_i s_j cross/(q_i q_j) resp. s_i(s_i-1)cross/q_i^2, switching order never changes a value, updates naming an unknown pair are refused and leave the state unchanged.',
    note='Each step is compared with the closed form of the latest quotes (the inductive invariant), so longer histories follow step by step; explicit histories are bounded.'),
 })
+CHECKS.update({
+ 'C11': dict(engine='kani+mirsym', technique='Kani/CBMC harnesses for index_left over every strictly increasing i64 list of a given length; symbolic execution of the MIR of CurveDF::try_new and the five interpolators with symbolic node dates/values/query date, z3 validity per path against a declarative adjacent-pair oracle; native replay',
+   category='model_checking', design_ref='DESIGN.md §3.11',
+   text='Interval selection: for EVERY strictly increasing list of 2..6 (quick) / 2..9 (thorough) 64-bit keys and every query value the selected interval is the one whose right end is the first key >= x, clamped (CBMC, bit-precise). Formulas: for 2..3 / 2..4 nodes with symbolic distinct dates (all supply orders through the real sort), symbolic positive values and a symbolic query date before/at/between/after the nodes, each of the five rules returns its closed form on the adjacent pair selected by that rule (log-type rules compared in log space as exact rational identities), the node value at a node (1 at the first node for the zero-rate rule), linear results lie between the node values.',
+   note='Reals; ln/exp uninterpreted with exp(ln y)=y on node values; dates at midnight; >4 nodes only through the index logic.'),
+ 'C12': dict(engine='mirsym', technique='symbolic execution of the MIR of set_ad_order / interpolated_value / index_value / nodes_into_order with symbolic nodes and query, through switch sequences; z3 validity per path of gradient/Hessian-by-name against the derivatives of the closed form; native replay with finite differences',
+   category='model_checking', design_ref='DESIGN.md §3.12',
+   text='For every rule, 2 (quick) / 2..3 nodes with symbolic dates and values and a symbolic query date: every sequence of order switches (length <=2 / <=3) keeps every looked-up value; after raising float nodes the node at sorted position i carries exactly the tag <id>i with unit sensitivity (also through nodes_into_order on unsorted supply); the gradient and Hessian of a looked-up value, read by variable name, equal the first and second derivatives of the closed form w.r.t. the two active node values and are zero elsewhere; nodes that already are Dual/Dual2 (one shared user variable or separate ones, symbolic sensitivities) keep their names through 1<->2 switches and obey the chain rule; index value = base/value, 0 before the first node, Err without base.',
+   note='Reals; uses the C01/C02 operator bodies (interpreted again).'),
+})
 NA_REASON = 'no registered check in this revision yet (work in progress; planned solver-based check described in DESIGN.md §3) — not claimed'
 
 checks = []
@@ -112,7 +122,7 @@ m = {
            'add_only': True},
  'engines': [
    {'name': 'kani', 'path': '/verif/kani', 'serves_properties': ['C08', 'C11', 'C20', 'C04'], 'kind_free_text': 'Kani 0.68 / CBMC 6.11 proof harnesses over the compiled crate (path dependency on /repo), native replay binary in the same crate'},
-   {'name': 'mirsym', 'path': '/verif/mirsym', 'serves_properties': ['C01','C02','C03','C04','C05','C06','C09','C10','C13','C17','C18','C19','C20'], 'kind_free_text': 'symbolic executor for rustc MIR (regenerated from /repo on every run) discharging path obligations with z3'},
+   {'name': 'mirsym', 'path': '/verif/mirsym', 'serves_properties': ['C01','C02','C03','C04','C05','C06','C09','C10','C11','C12','C13','C17','C18','C19','C20'], 'kind_free_text': 'symbolic executor for rustc MIR (regenerated from /repo on every run) discharging path obligations with z3'},
    {'name': 'tables', 'path': '/verif/tables', 'serves_properties': ['C07'], 'kind_free_text': 'SMT encoding of the static holiday tables against the published rules over a symbolic day'},
  ],
  'checks': checks,
